@@ -88,9 +88,20 @@ def syncAndWaitAck (φ : Assign) (r : R) : R × Bool :=
   let x := syncOnce φ 0 r
   (x.1, x.2 == .ok)
 
-/-- retention on the remote: level-0 files below `m` are removed (never the newest) -/
+/-- `DB.EnforceL0RetentionByTime` on the remote: level-0 files below `m` are removed — never the newest
+    REMOTE file (`lastInfo`, the last item of the listing being iterated; tied to the source by
+    `C05.gen_l0_guard_remote`), so `m ≤ max remote`.  The local copies go with them. -/
 def retain (m : Nat) (r : R) : R :=
-  if m ≤ maxOf r.remote ∧ r.lo ≤ m then { r with remote := r.remote.filter (fun t => decide (m ≤ t)), lo := m } else r
+  if m ≤ maxOf r.remote ∧ r.lo ≤ m then
+    { r with remote := r.remote.filter (fun t => decide (m ≤ t)), lo := m, localMin := max r.localMin m }
+  else r
+
+/-- the defective variant: the guard is taken against the newest LOCAL file (a cache-first lookup), so
+    while the replica lags (`max remote < dbPos`) every remote level-0 file may go: `m ≤ dbPos` -/
+def retainLocalGuard (m : Nat) (r : R) : R :=
+  if m ≤ r.dbPos ∧ r.lo ≤ m then
+    { r with remote := r.remote.filter (fun t => decide (m ≤ t)), lo := m, localMin := max r.localMin m }
+  else r
 
 /-- the application commits: the database position advances -/
 def commit (r : R) : R := { r with dbPos := r.dbPos + 1 }
